@@ -1,7 +1,7 @@
 (* C02 — pivot_protected and clause (c) for the complete output polygon of the guard-free kernel. *)
 From Coq Require Import ZArith List Bool Lia ZifyBool Sorted.
-From Centro Require Import Base.Sx Model.Hull Proofs.HullEmit Proofs.HullBelow Proofs.HullAbove Proofs.HullCorrect
-  Proofs.HullGuard.
+From Centro Require Import Base.Sx Model.Hull Spec.HullSpec Proofs.HullEmit Proofs.HullGeom Proofs.HullBelow Proofs.HullAbove
+  Proofs.HullCorrect Proofs.HullGuard Proofs.HullStrict.
 Import ListNotations.
 Open Scope Z_scope.
 
@@ -64,6 +64,33 @@ Proof.
   destruct A as [|a' A'].
   - cbn [app] in *. destruct H1 as [H1 _]. exact (conj H1 H2).
   - cbn [app] in *. destruct H1 as [H1 H1']. exact (conj H1 (IH H1' H2)).
+Qed.
+
+Lemma free_fold_cols (upper : env) (P : pt -> Prop) : forall cols (A : list pt),
+  (forall x, In x A -> P x) -> (forall j, In j cols -> P (upper j, j)) ->
+  forall x, In x (fold_left (upper_emit_free upper) cols A) -> P x.
+Proof.
+  induction cols as [|j cols IH]; intros A HA HP x Hx; cbn [fold_left] in Hx; [auto|].
+  apply (IH (upper_emit_free upper A j)); auto.
+  - intros y Hy. unfold upper_emit_free in Hy. destruct (-1 <? upper j); [|auto].
+    destruct Hy as [Hy|Hy]; [subst y; apply HP; left; reflexivity | apply HA; eapply prune_subset; exact Hy].
+  - intros j' Hj'. apply HP. right. exact Hj'.
+Qed.
+Lemma jdesc_tl (l : list pt) : jdesc l -> jdesc (tl l).
+Proof. destruct l as [|x l]; [auto|]. cbn [tl]. apply jdesc_tail. Qed.
+Lemma last_rev {A} (l : list A) d : last (rev l) d = hd d l.
+Proof. destruct l as [|x l]; [reflexivity|]. cbn [rev hd]. apply last_last. Qed.
+Lemma hd_rev {A} (l : list A) d : hd d (rev l) = last l d.
+Proof. rewrite <- (rev_involutive l) at 2. rewrite last_rev. reflexivity. Qed.
+
+(* no vertex is repeated *)
+Lemma hull_label_nodup : forall m pts slack, label_ok m pts -> 0 <= slack -> NoDup (hull_label m pts slack).
+Proof.
+  intros m pts slack Hok Hs. destruct pts as [|p0 rest]; [constructor|].
+  destruct (fin_stack3 m p0 rest slack Hok Hs) as [ND [_ Hnin]].
+  unfold hull_label. cbv zeta. apply NoDup_rev.
+  match goal with |- context [if ?b then _ else _] => destruct b eqn:EB end; [|exact ND].
+  constructor; [apply Hnin; lia | exact ND].
 Qed.
 
 (* ---------------------------------------------------------------- the structure of the final stack *)
@@ -265,7 +292,152 @@ Section Poly.
         destruct A' as [|z A'']; cbn [app hd]; cbn [app] in HallU; [exact (proj1 HallU)|].
         destruct A''; cbn [app] in HallU; exact (proj1 HallU).
   Qed.
+
+  (* ---------------------------------------------------------------- the label with at least two columns *)
+  Theorem wide_correct : HullSpec pts (hull_free m pts).
+  Proof.
+    destruct pivot_protected as [Est2 [HlastU [HneU Epr]]].
+    destruct poly_first as [Hb [_ [_ [_ Hbincl]]]].
+    destruct poly_st1 as [Hne1 [HJ1 [_ [Hincl1 [Hall1 [Hlast1 _]]]]]].
+    destruct poly_R as [HR HQ]. destruct (fin_Q m p0 rest Hok) as [_ [Hlu0 HL0]].
+    assert (Hlu : lower sj <= upper sj) by exact Hlu0. assert (HL : In ((lower sj, sj) : pt) pts) by exact HL0.
+    clear Hlu0 HL0.
+    destruct hull_free_edges as [HFSne HFSedges].
+    assert (Hfree : hull_free m pts = hull_label m pts 0) by (symmetry; apply guard_irrelevant; [exact Hok | lia]).
+    set (Bv := last st1 p0).
+    assert (HBv : snd Bv = sj) by apply Hlast1.
+    assert (HBin : In Bv pts).
+    { destruct (exists_last Hne1) as [l' [z Ez]]. apply Hincl1. unfold Bv. rewrite Ez, last_last.
+      apply in_or_app. right. left. reflexivity. }
+    (* base = base' ++ [Bv], a jdesc suffix of st1 *)
+    assert (HJb : jdesc base).
+    { unfold base. destruct (pt_eq_dec (hd R st1) R); [|exact HJ1]. apply jdesc_tl. exact HJ1. }
+    assert (Hlb : last base p0 = Bv).
+    { pose proof Hb as Hb'. unfold base in Hb' |- *. destruct (pt_eq_dec (hd R st1) R); [|reflexivity].
+      apply last_tl. exact Hb'. }
+    destruct (exists_last Hb) as [base' [z Ez]].
+    assert (Ezb : z = Bv) by (rewrite Ez, last_last in Hlb; exact Hlb). subst z.
+    set (PU := prune stU Q).
+    assert (HPU : forall x, In x PU -> sj < snd x).
+    { intros x Hx. apply (prune_subset stU Q) in Hx.
+      apply (free_fold_cols upper (fun y => sj < snd y) cols2 []); [intros y [] | | exact Hx].
+      intros j Hj. unfold cols2 in Hj. apply in_rev in Hj. apply in_cols_up in Hj. cbn [snd]. lia. }
+    assert (Hbase' : forall x, In x base' -> sj < snd x).
+    { intros x Hx. rewrite Ez in HJb. pose proof (proj1 (jdesc_mid base' [] Bv HJb) x Hx). lia. }
+    set (M := PU ++ base').
+    assert (Est3 : prune st2F Q = M ++ [Bv]) by (rewrite Epr, Ez; unfold M, PU; rewrite app_assoc; reflexivity).
+    assert (HM : forall x, In x M -> sj < snd x).
+    { intros x Hx. unfold M in Hx. apply in_app_or in Hx. destruct Hx; auto. }
+    assert (HRM : In R M).
+    { unfold M. apply in_or_app. left. unfold PU.
+      assert (N : prune stU Q <> []) by (apply prune_nonempty; exact HneU).
+      destruct (exists_last N) as [l' [w Ew]]. rewrite Ew.
+      pose proof (HlastU R) as X. rewrite <- (prune_last stU Q R), Ew, last_last in X. subst w.
+      apply in_or_app. right. left. reflexivity. }
+    (* the output as a list *)
+    assert (EV : hull_free m pts = if negb (lower sj =? upper sj) then Bv :: rev M ++ [Q] else Bv :: rev M).
+    { rewrite final_stack_out. unfold final_stack. rewrite Est3.
+      destruct (negb (lower sj =? upper sj)); cbn [rev]; rewrite rev_app_distr; reflexivity. }
+    apply (strict_hullspec pts (hull_free m pts) Bv Q sj ej (negb (lower sj =? upper sj))).
+    - rewrite Hfree. intros x Hx. apply (vertices_subset m pts 0 x); [|exact Hx].
+      intros q Hq. exact (proj1 (Hrange q Hq)).
+    - rewrite Hfree. apply hull_label_nodup; [exact Hok | lia].
+    - (* edges inside the list *)
+      intros l1 l2 a b E s Hs. destruct (HFSedges s Hs) as [He _].
+      assert (EF : final_stack = rev l2 ++ b :: a :: rev l1).
+      { rewrite <- (rev_involutive final_stack), <- final_stack_out, E, rev_app_distr. cbn [rev].
+        rewrite <- !app_assoc. reflexivity. }
+      rewrite EF in He. eapply edges_ok_mid. exact He.
+    - (* the closing edge *)
+      intros d s Hs. destruct (HFSedges s Hs) as [_ Hw]. rewrite final_stack_out, last_rev, hd_rev. apply Hw.
+    - intros l1 l2 a b c E. rewrite Hfree in E.
+      apply (emit_chain_convex m pts 0 (fun q Hq => proj1 (Hrange q Hq)) l1 l2 a b c E).
+    - intros s Hs. split; [apply Hleft | apply Hright]; exact Hs.
+    - exact Hwide.
+    - exists R. split; [|reflexivity]. rewrite EV.
+      destruct (negb (lower sj =? upper sj)); right; [apply in_or_app; left|]; apply in_rev; rewrite rev_involutive; exact HRM.
+    - destruct (negb (lower sj =? upper sj)) eqn:EN.
+      + exists (rev M). split; [exact EV|]. split; [exact HBv|]. split; [reflexivity|]. split.
+        * destruct (Hall1 _ HL) as [_ HBo]. destruct (HBo p0) as [_ B2].
+          assert (B3 : fst Bv <= lower sj) by (apply B2; cbn [snd]; symmetry; exact HBv).
+          assert (Hne : lower sj <> upper sj) by (intros E0; rewrite E0, Z.eqb_refl in EN; discriminate).
+          unfold Q. cbn [fst]. lia.
+        * intros x Hx. apply HM. apply in_rev. exact Hx.
+      + exists (rev M). split; [exact EV|]. split; [exact HBv|]. split; [intros x Hx; apply HM; apply in_rev; exact Hx|].
+        intros l1 y z E.
+        assert (EQB : Q = Bv).
+        { pose proof (build_upper_ge pts _ HBin) as G. pose proof (build_lower_le m pts _ HBin) as G2.
+          rewrite HBv in G, G2. fold upper in G. fold lower in G2.
+          destruct Bv as [bi bj]. unfold Q. cbn [fst snd] in *. f_equal; lia. }
+        rewrite <- EQB.
+        assert (EF : prune st2F Q = z :: y :: rev l1).
+        { assert (X : final_stack = prune st2F Q) by (unfold final_stack; rewrite EN; reflexivity).
+          rewrite <- X, <- (rev_involutive final_stack), <- final_stack_out, E, rev_app_distr. reflexivity. }
+        eapply prune_top_convex. exact EF.
+  Qed.
 End Poly.
+
+(* ---------------------------------------------------------------- the label with one column *)
+Lemma cols_up_single s : cols_up s s = [s].
+Proof. unfold cols_up. replace (Z.to_nat (s - s + 1)) with 1%nat by lia. cbn. f_equal. lia. Qed.
+Lemma cols_up_empty s : cols_up (s + 1) s = [].
+Proof. unfold cols_up. replace (Z.to_nat (s - (s + 1) + 1)) with 0%nat by lia. reflexivity. Qed.
+
+Theorem narrow_correct : forall m p0 rest, label_ok m (p0 :: rest) -> snd (last (p0 :: rest) p0) = snd p0 ->
+  HullSpec (p0 :: rest) (hull_free m (p0 :: rest)).
+Proof.
+  intros m p0 rest Hok Eej.
+  set (pts := p0 :: rest). set (sj := snd p0). set (lo := build_lower m pts sj). set (up := build_upper pts sj).
+  destruct (fin_Q m p0 rest Hok) as [HQ0 [Hlu0 HL0]].
+  assert (HQ : In ((up, sj) : pt) pts) by exact HQ0. assert (Hlu : lo <= up) by exact Hlu0.
+  assert (HL : In ((lo, sj) : pt) pts) by exact HL0. clear HQ0 Hlu0 HL0.
+  assert (Hlm : lo <? m + 1 = true).
+  { pose proof (fin_range m p0 rest Hok _ HL) as X. cbn [fst] in X. lia. }
+  assert (Hcol : forall s, In s pts -> snd s = sj /\ lo <= fst s <= up).
+  { intros s Hs. pose proof (fin_left m p0 rest Hok s Hs) as L. pose proof (fin_right m p0 rest Hok s Hs) as Rr.
+    rewrite Eej in Rr. assert (Es : snd s = sj) by (unfold sj; lia). split; [exact Es|].
+    pose proof (build_lower_le m pts s Hs) as G1. pose proof (build_upper_ge pts s Hs) as G2.
+    rewrite Es in G1, G2. unfold lo, up. lia. }
+  assert (Eout : hull_free m pts = if negb (lo =? up) then [(lo, sj); (up, sj)] else [(lo, sj)]).
+  { unfold hull_free, pts. cbv zeta. rewrite Eej. fold pts. fold sj. rewrite cols_up_single, cols_up_empty.
+    cbn [rev fold_left]. unfold lower_emit. fold lo. rewrite !Hlm. cbn [prune]. fold up.
+    destruct (negb (lo =? up)); reflexivity. }
+  rewrite Eout. destruct (negb (lo =? up)) eqn:EN.
+  - constructor.
+    + intros x [Hx|[Hx|[]]]; subst x; assumption.
+    + constructor; [intros [H|[]]; inversion H; lia | constructor; [intros [] | constructor]].
+    + discriminate.
+    + discriminate.
+    + intros a b E s Hs. inversion E. subst a b. destruct (Hcol s Hs) as [Es Hr].
+      destruct s as [si sj']. unfold on_segment, cross, dot. cbn [fst snd] in *. subst sj'. split; [ring|]. nia.
+    + cbn. lia.
+  - constructor.
+    + intros x [Hx|[]]; subst x; assumption.
+    + constructor; [intros [] | constructor].
+    + discriminate.
+    + intros a E s Hs. inversion E. subst a. destruct (Hcol s Hs) as [Es Hr].
+      destruct s as [si sj']. cbn [fst snd] in *. f_equal; lia.
+    + discriminate.
+    + cbn. lia.
+Qed.
+
+(* ---------------------------------------------------------------- HullLabelCorrect *)
+(* For every label the kernel may see (0 <= i <= max_i, rows in buffer order) and every slack >= 0 the
+   polygon emitted by the kernel meets the full specification: vertices are pixels, no repeated vertex,
+   every cyclic triple strictly convex in one sense, every pixel inside or on. *)
+Theorem hull_label_correct : HullLabelCorrect.
+Proof.
+  intros m pts slack Hok Hs. rewrite (guard_irrelevant m pts slack Hok Hs).
+  destruct pts as [|p0 rest].
+  - cbn. constructor; auto; try discriminate.
+    + intros x [].
+    + constructor.
+    + cbn. lia.
+  - destruct (Z_lt_le_dec (snd p0) (snd (last (p0 :: rest) p0))) as [Hw|Hn].
+    + apply wide_correct; assumption.
+    + apply narrow_correct; [exact Hok|].
+      pose proof (fin_right m p0 rest Hok p0 (fin_p0 p0 rest)). lia.
+Qed.
 
 (* clause (c), complete, for the kernel as written (with the guard, any slack >= 0), every label with at
    least two columns: the output is the reverse of a stack all of whose edges, and the closing edge,
@@ -291,16 +463,16 @@ Qed.
 
 (* the batch theorems with HullNoOverflow discharged *)
 From Centro Require Import Spec.HullSpec Proofs.HullImage.
-Theorem convex_hull_ijv_correct_partial2 : HullLabelCorrect ->
+Theorem convex_hull_ijv_correct :
   forall ijv indexes, NoDup indexes -> (forall x, In x ijv -> 0 <= r_i x) ->
   let res := fst (convex_hull_ijv ijv indexes) in
   BatchSpec ijv indexes (rows_of res) (counts_of res).
-Proof. intros HC. exact (convex_hull_ijv_correct_partial HC hull_no_overflow). Qed.
-Theorem convex_hull_correct_partial2 : HullLabelCorrect ->
+Proof. exact (convex_hull_ijv_correct_partial hull_label_correct hull_no_overflow). Qed.
+Theorem convex_hull_correct :
   forall im indexes, NoDup indexes ->
   match convex_hull im indexes with
   | HEmpty2 => indexes = []
   | HBlank n => n = length indexes /\ forall l, pts_of (all_ijv im) l = []
   | HRows r => BatchSpec (all_ijv im) indexes (rows_of (fst r)) (counts_of (fst r))
   end.
-Proof. intros HC. exact (convex_hull_correct_partial HC hull_no_overflow). Qed.
+Proof. exact (convex_hull_correct_partial hull_label_correct hull_no_overflow). Qed.
